@@ -24,7 +24,7 @@ func init() {
 			"Every history of length <= 4 (quick) / <= 5 (thorough) over 2 clients x 2 issuer IDs x 2 anonymous IDs (14 operations: honest verify, verify with an invalid signature, verify of another client's correctly signed request, 4 finalizations per client) is enumerated, every history of length <= 5 / <= 6 over a second set of 7 operations that includes FinalizeIndex under client key bytes no request was verified for (the uncompressed SEC1 encoding of a verified client's point: must be refused and leave no state), plus seeded histories of length 200 over 3 clients x 5 x 5 (every other one, and one more exhaustive family, with all client-key arguments handed over in one buffer refilled in place), plus one history that binds 1100 / 4200 distinct issuer IDs for one client with refused conflicts and repeated verifications in between. Issuer IDs are realised without an issuer by handing in ref-blinded fixed points. " +
 			"Oracle at every step: accept/reject as the model says, returned ID = reference HKDF, and the hook snapshot of the client's binding map equals the model's (so a rejected call that overwrote a binding is seen even if no later call probes it). " +
 			"distinct_nontrivial = histories containing a rejection followed by a later acceptance for the same client",
-		Floors:      []string{"steps_checked", "finalize_accept_new", "finalize_accept_repeat", "finalize_reject_conflict", "finalize_reject_unknown_client", "finalize_reject_unverified_encoding_of_verified_point", "verify_reject_invalid", "snapshot_equal_model", "histories", "histories_with_client_key_buffer_reused_in_place", "flood_history_of_one_client"},
+		Floors:      []string{"histories_with_anonymous_ids_equal_to_index_bytes", "steps_checked", "finalize_accept_new", "finalize_accept_repeat", "finalize_reject_conflict", "finalize_reject_unknown_client", "finalize_reject_unverified_encoding_of_verified_point", "verify_reject_invalid", "snapshot_equal_model", "histories", "histories_with_client_key_buffer_reused_in_place", "flood_history_of_one_client"},
 		Assumptions: []string{"histories are sequential (the statement is over sequences); the per-client state is observed through the verif-tagged VerifSnapshot hook"},
 		Run:         runC09,
 	})
@@ -416,6 +416,37 @@ func runC09(c *core.Ctx) {
 		wf.replay(hist, "flood")
 		c.Class("flood_history_of_one_client")
 		c.Info("flood_history_bindings", nb)
+	}
+	// exhaustive short histories of one client whose anonymous origin IDs ARE the bytes of its own issuer origin IDs
+	// (crosswise), and the hexadecimal spelling of one: the two directions of the binding live in separate name spaces
+	{
+		wa := newC09World(c, 1, 2, 3)
+		wa.anon[0], wa.anon[1], wa.anon[2] = clone(wa.index[0][1]), clone(wa.index[0][0]), []byte(hex.EncodeToString(wa.index[0][0]))
+		aops := []c09Op{{kind: 0, client: 0}}
+		for j := 0; j < 2; j++ {
+			for k := 0; k < 3; k++ {
+				aops = append(aops, c09Op{kind: 2, client: 0, j: j, k: k})
+			}
+		}
+		LA := c.Pick(4, 5)
+		total := 1
+		for i := 0; i < LA; i++ {
+			total *= len(aops)
+		}
+		for lo := 0; lo < total; lo += 64 {
+			if !c.Next() {
+				continue
+			}
+			for x := lo; x < lo+64 && x < total; x++ {
+				hist := make([]c09Op, LA)
+				for i, y := 0, x; i < LA; i++ {
+					hist[i] = aops[y%len(aops)]
+					y /= len(aops)
+				}
+				wa.replay(hist, "anon-ids-equal-to-index-bytes")
+				c.Class("histories_with_anonymous_ids_equal_to_index_bytes")
+			}
+		}
 	}
 	// seeded long histories: 3 clients x 5 x 5
 	w2 := newC09World(c, 3, 5, 5)
